@@ -29,7 +29,7 @@ def genus0(seed, n, size="small"):
         v = v * rng.uniform(0.7, 1.5, 3) + 0.01 * rng.normal(size=v.shape)
         if k % 2:
             v = v * (1 + 0.2 * np.sin(3 * v[:, [0]]) * np.cos(2 * v[:, [1]]))
-        yield dict(v=v, t=t, name="ellipsoid" if k % 2 == 0 else "bumpy")
+        yield dict(v=v, t=t, name="ellipsoid" if k % 2 == 0 else "bumpy", pres=gen.PRES[int(rng.integers(0, len(gen.PRES)))])
 
 
 def coarse_case():
@@ -121,6 +121,7 @@ class Check(BaseCheck):
         # whole map on a genus-0 mesh: landmark count, unit norm, Moebius step
         for case in genus0(self.seed + 141, 2 if self.quick else 12):
             v, t = case["v"], case["t"]
+            gen.use(case)
             with core.quiet():
                 m = TriaMesh(v, t); m.orient_()
             seen = {}
